@@ -496,7 +496,7 @@ class DeserializationMethodVisitor(
             ):
                 constructor = FieldsConstructor(
                     cls,
-                    len(fields),
+                    len(dataclasses.fields(cls)),
                     tuple(
                         DefaultField(f.name, f.default)
                         for f in dataclasses.fields(cls)
